@@ -182,6 +182,13 @@ def specFlags (st : Index) (ix : List Def) (f : Path) (n : String) : List String
       (match (defsOf ix n).head? with
        | some d => !(Spec.provides es (es.length + 1) c d)
        | none => false))
+  -- order sensitivity of the same mechanism: under SOME registration order the first definition
+  -- of the name would be one the importing conftest does not provide (what separate processes /
+  -- separate scans can differ in)
+  let impOrder := (ancestorsOfDir (dirOf f)).any (fun dir =>
+    let c := conftestOf dir
+    (st.existsOnDisk c || ahas st.cache c) && (st.isImportedIn n c).1 &&
+      (defsOf ix n).any (fun d => !(Spec.provides es (es.length + 1) c d)))
   let alias := (allFiles st).any (fun g =>
     match st.content g with
     | some { parsed := some fr, .. } =>
@@ -193,7 +200,8 @@ def specFlags (st : Index) (ix : List Def) (f : Path) (n : String) : List String
     | _ => false)
   let multiThird := ((defsOf ix n).filter (·.thirdParty)).length ≥ 2
   let multiPlugin := ((defsOf ix n).filter (fun d => d.plugin && !d.thirdParty)).length ≥ 2
-  (if impFirst then ["imp-first"] else []) ++ (if alias then ["alias"] else []) ++
+  (if impFirst then ["imp-first"] else []) ++ (if impOrder then ["imp-order-sensitive"] else []) ++
+    (if alias then ["alias"] else []) ++
     (if multiThird then ["multi-third"] else []) ++ (if multiPlugin then ["multi-plugin"] else []) ++
     (if badConf then ["unparsable-conftest"] else []) ++
     (if hasImportCycle st then ["import-cycle"] else [])
